@@ -66,7 +66,7 @@ def finish (s : St) : St :=
   let ws := wsE ++ wsL
   let cls : List String :=
     (if all.any (fun p => (passThrough c).contains (markerOf p.1)) then ["pass-through"] else []) ++
-    (if !hdrFits c pre (ws.map (·.len)) then ["header-cache"] else []) ++
+    (if KF.headerCache c pre (ws.map (·.len)) then ["header-cache"] else []) ++
     (if lateL.length > 0 && headerLen c pre (lenE + lenL) != headerLen c pre lenE then ["late-grow"] else [])
   if cls.length > 0 then { s with classes := cls } else
   let region := customRegion c pre ws
